@@ -46,12 +46,12 @@ KEYWORDS = {"local", "if", "then", "elseif", "else", "end", "return", "and", "or
 
 TOKEN_RE = re.compile(r"""
     (?P<ws>\s+)
-  | (?P<lcomment>--\[\[.*?\]\])
+  | (?P<lcomment>--\[(?P<lc_eq>=*)\[.*?\](?P=lc_eq)\])
   | (?P<comment>--[^\n]*)
   | (?P<number>\d+\.\d+|\d+)
   | (?P<name>[A-Za-z_][A-Za-z0-9_]*)
   | (?P<string>"(?:[^"\\\n])*"|'(?:[^'\\\n])*')
-  | (?P<op>==|~=|<=|>=|\.\.|[-+*/<>=(),\[\].])
+  | (?P<op>==|~=|<=|>=|\.\.|[-+*/<>=(),;\[\].])
 """, re.X | re.S)
 
 
@@ -64,6 +64,8 @@ def lex(src):
         if not m:
             raise Unsupported("line %d: cannot tokenise %r" % (line, src[i:i + 20]))
         kind = m.lastgroup
+        if kind == "lc_eq":
+            kind = "lcomment"
         text = m.group(kind)
         if kind in ("ws", "comment", "lcomment"):
             pass
@@ -109,6 +111,8 @@ class Parser:
     def block(self, terms):
         stats = []
         while True:
+            while self.at("op", ";"):          # empty statements / separators
+                self.next()
             k, x, ln = self.peek()
             if k == "eof" or (k == "kw" and x in terms):
                 return stats
@@ -122,6 +126,8 @@ class Parser:
                 if self.at("op", ","):
                     self.err("multiple return values are not supported")
                 stats.append(("return", e))
+                if self.at("op", ";"):
+                    self.next()
                 k3, x3, _ = self.peek()
                 if not (k3 == "eof" or (k3 == "kw" and x3 in terms)):
                     self.err("statement after return")
@@ -132,17 +138,27 @@ class Parser:
         k, x, ln = self.peek()
         if k == "kw" and x == "local":
             self.next()
-            name = self.expect("name")
-            if name in RESERVED:
-                self.err("local %s shadows a built-in name" % name)
-            if self.at("op", ","):
-                self.err("multiple assignment is not supported")
+            names = [self.expect("name")]
+            while self.at("op", ","):
+                self.next()
+                names.append(self.expect("name"))
+            for name in names:
+                if name in RESERVED:
+                    self.err("local %s shadows a built-in name" % name)
+            if len(set(names)) != len(names):
+                self.err("a name occurs twice in one local statement")
             if self.at("op", "="):
                 self.next()
-                e = self.exp()
+                es = self.explist()
             else:
-                e = ("nil",)
-            return ("local", name, e)
+                es = [("nil",)] * len(names)
+            if len(names) == 1 and len(es) == 1:
+                return ("local", names[0], es[0])
+            if len(es) != len(names):
+                # a call could deliver several values, surplus values are dropped, missing ones are nil:
+                # none of that is needed by a Redis script - outside the subset
+                self.err("multiple assignment with %d names and %d values is not supported" % (len(names), len(es)))
+            return ("mlocal", names, es)
         if k == "kw" and x == "if":
             self.next()
             arms = []
@@ -169,6 +185,21 @@ class Parser:
             return ("if", arms, els)
         if k == "name":
             # assignment or call statement
+            if self.t[self.i + 1][0] == "op" and self.t[self.i + 1][1] == ",":
+                names = [self.next()[1]]
+                while self.at("op", ","):
+                    self.next()
+                    names.append(self.expect("name"))
+                for name in names:
+                    if name in RESERVED:
+                        self.err("assignment to built-in name %s" % name)
+                if len(set(names)) != len(names):
+                    self.err("a name occurs twice on the left of one assignment")
+                self.expect("op", "=")
+                es = self.explist()
+                if len(es) != len(names):
+                    self.err("multiple assignment with %d names and %d values is not supported" % (len(names), len(es)))
+                return ("massign", names, es)
             if self.t[self.i + 1][0] == "op" and self.t[self.i + 1][1] == "=":
                 name = self.next()[1]
                 if name in RESERVED:
@@ -180,6 +211,13 @@ class Parser:
                 self.err("only redis.call/pcall may be used as a statement")
             return ("exprstat", e)
         self.err("unsupported statement starting with %s %r" % (k, x))
+
+    def explist(self):
+        es = [self.exp()]
+        while self.at("op", ","):
+            self.next()
+            es.append(self.exp())
+        return es
 
     # precedence climbing (Lua: or < and < comparison < .. < +- < */ < unary)
     def exp(self):
@@ -325,9 +363,15 @@ def assigned(stats, declared_here=None):
     for s in stats:
         if s[0] == "local":
             local.add(s[1])
+        elif s[0] == "mlocal":
+            local.update(s[1])
         elif s[0] == "assign":
             if s[1] not in local and s[1] not in res:
                 res.append(s[1])
+        elif s[0] == "massign":
+            for v in s[1]:
+                if v not in local and v not in res:
+                    res.append(v)
         elif s[0] == "if":
             for _, b in s[1]:
                 for v in assigned(b, local):
@@ -500,6 +544,23 @@ class Gen:
                 raise Unsupported("assignment to undeclared (global) variable %s" % s[1])
             b, t = self.exp(s[2], scope)
             return [pad + l for l in b] + [pad + "let v_%s := %s in" % (s[1], t)]
+        if k in ("mlocal", "massign"):
+            # all values are computed (left to right) before any name is (re)bound
+            if k == "massign":
+                for v in s[1]:
+                    if v not in scope:
+                        raise Unsupported("assignment to undeclared (global) variable %s" % v)
+            lines, tmps = [], []
+            for e in s[2]:
+                b, t = self.exp(e, scope)
+                x = self.fresh()
+                lines += [pad + l for l in b] + [pad + "let %s := %s in" % (x, t)]
+                tmps.append(x)
+            for v, x in zip(s[1], tmps):
+                lines.append(pad + "let v_%s := %s in" % (v, x))
+                if k == "mlocal":
+                    scope.add(v)
+            return lines
         if k == "exprstat":
             b, t = self.exp(s[1], scope)
             return [pad + l for l in b]
